@@ -2,9 +2,12 @@
 
 Decides: in every function of vibesql-storage that matches on IndexData, the InMemory and the
 DiskBacked arm perform the same operation class (add one row id / remove one row id / remove a
-whole key / rebuild / point lookup / range lookup).  Does NOT decide the B+tree's own behaviour
-(C17) or spill thresholds."""
-import collections
+whole key / rebuild / point lookup / range lookup); (keys) both backends are fed keys built by the same
+pipeline at every maintenance site (normalize(truncate(value, prefix))); (spill) the conversion of an in-memory
+index to the disk backend emits one entry per (key, row) pair — every push of an entry is inside the loop over the
+key's row list — and does not depend on the index being UNIQUE.
+Does NOT decide the B+tree's own behaviour (C17: search, splits, leaf reuse) or spill thresholds."""
+import collections, re
 from ..engine.callgraph import CallGraph
 from ..engine.facts import callee_name, callee_generic_name
 from ..engine.tables import enum_switches, switch_arm_regions
@@ -19,7 +22,7 @@ MEM_CLASS = {
     BM + 'get': 'point', BM + 'contains_key': 'point', BM + 'range': 'range', BM + 'keys': 'range',
     BM + 'values': 'range', BM + 'iter': 'range', BM + 'insert': 'add', BM + 'remove': 'remove-key',
     BM + 'get_mut': None, 'alloc::collections::btree::map::entry::Entry::<\'a, K, V, A>::or_insert_with': None,
-    'alloc::vec::Vec::<T, A>::push': None,
+    'alloc::vec::Vec::<T, A>::push': None, BM + 'len': None, BM + 'is_empty': None,
 }
 DISK_CLASS = {
     BT + 'insert::<impl vibesql_storage::btree::node::btree_index::BTreeIndex>::insert': 'add',
@@ -109,3 +112,42 @@ def run(ctx):
                 ctx.finding(f'arms/{key}', f'{f.nice}: InMemory arm does {sorted(a)} but DiskBacked arm does {sorted(b)}', f.loc,
                             {'in_memory': sorted(mem), 'disk_backed': sorted(disk)})
     ctx.floor('match expressions on IndexData with both arms', n, 12)
+
+
+    # ---------------------------------------------------------------- (keys) same key pipeline for both backends
+    from .C02 import key_builder_rule
+    key_builder_rule(ctx, 'C16.keys')
+
+    # ---------------------------------------------------------------- (spill) lossless conversion
+    from ..engine.linear import Encoder
+    from ..engine.symexpr import Sym
+    from ..engine.cfg import defs_of, op_local
+    from . import shared
+    ctx.rule('C16.spill', 'IndexManager::spill_index_to_disk: every push into the entry list handed to BTreeIndex::bulk_load happens inside a '
+             'loop over the row list of the current key (one entry per key and row), and no deciding condition of a push mentions `unique`')
+    sp = ctx.fn('vibesql_storage::database::indexes::index_manager::IndexManager::spill_index_to_disk')
+    enc = Encoder(prog, sp)
+    loop_of = enc.loop_of_block()
+    sy = Sym(sp)
+    fdefs = defs_of(sp)
+    pushes = []
+    for i, t in sp.calls():
+        cn = callee_name(t) or ''
+        if cn.startswith('alloc::vec::Vec') and cn.rsplit('::', 1)[-1].split('<')[0] == 'push' and t['args']:
+            l, nm = shared.named_root(sp, fdefs, t['args'][0])
+            if nm and 'entr' in nm:
+                pushes.append((i, nm))
+    ctx.floor('C16.spill pushes into the bulk-load entry list', len(pushes), 1)
+    for i, nm in pushes:
+        depth = 0; roots = []
+        for h in enc.lh:
+            if i in shared._body(enc, h):
+                depth += 1; roots.append(enc.loop_root(h))
+        conds = [c for c, _v in shared.deciding_conditions(sp, i, sy)]
+        uses_unique = [c for c in conds if re.search(r'\.unique\b', c)]
+        ctx.instance(f'spill/push@{shared._ordinal(sp, i)}', {'rule': 'C16.spill', 'vector': nm, 'loop_depth': depth, 'loops_over': [r[:60] for r in roots],
+                                                               'conditions_on_unique': uses_unique})
+        if depth < 2 or uses_unique:
+            ctx.finding('spill/lossy-conversion', 'spill_index_to_disk does not emit one entry per (key, row) pair for every index: an entry is pushed '
+                        f'outside the loop over the key\'s row list{" under a test of `unique`" if uses_unique else ""}; rows sharing a key (NULL keys of a UNIQUE index) '
+                        'disappear when the index moves to disk', f'{sp.file}:{sp.blocks[i]["t"]["l"]}')
